@@ -19,7 +19,7 @@ def main():
     prop = sys.argv[1]
     tier, seed, replay = vlib.seed_tier(sys.argv)
     try:
-        if prop in ("C01", "C02", "C06", "C11"):
+        if prop in ("C01", "C02", "C06", "C11", "C07"):
             import check_calls
             return check_calls.check(prop, tier, seed, replay)
         if prop == "C19":
